@@ -104,8 +104,88 @@ class _Route(Contract):
         return self.unchanged(a, old)
 
 
+def large_integer_warning(it, old):
+    """C17, last sentence: 'A RuntimeWarning is issued when integers too large for the target float
+    are converted' -- the float of n bytes (n >= 2) holds every integer of magnitude <= 2**m exactly,
+    m = 11, 24, 53 (IEEE half, single, double); an element beyond that must have raised the warning.
+    The thresholds are written here from IEEE 754, not read from the package."""
+    k, n = to_z3(old["kind"]), to_z3(old["itemsize"])
+    e = to_real(old["elem"])
+    mag = z3.If(e >= 0, e, -e)
+    width = z3.If(n < 2, z3.IntVal(2), n)
+    limit = z3.If(width == 2, z3.RealVal(2 ** 11), z3.If(width == 4, z3.RealVal(2 ** 24), z3.RealVal(2 ** 53)))
+    is_int = z3.Or(k == N.sv("i"), k == N.sv("u"))
+    warned = any(ev[0] == "warn" for ev in it.ctx.events)
+    return ("C17: an integer element too large for the float of its width was announced by a RuntimeWarning",
+            z3.Implies(z3.And(is_int, width <= 8, mag > limit), z3.BoolVal(warned)))
+
+
+def route_replay(model, route):
+    from .replaylib import script
+    return script(model, "ROUTE = %r\n" % route + r'''
+import numpy as np, warnings
+reg = UnitRegistry(add_default_symbols=False)
+old, pv_old = build_unit(reg, "xold", MODEL, "old")
+new, pv_new = build_unit(reg, "xnew", MODEL, "new")
+kind = MODEL.get("self.kind", "f"); size = int(MODEL.get("self.itemsize", 8))
+dt = np.dtype(kind + str(size)) if kind != "b" else np.dtype(bool)
+xq = F(str(MODEL.get("self.elem", 1)))
+x = int(xq) if kind in "iu" else float(xq)
+try:
+    data = np.array([x, x], dtype=dt)
+except OverflowError:
+    print("the model's element does not fit the dtype: nothing to replay"); sys.exit(0)
+arr = unyt.unyt_array(data.copy(), old)
+before_vals, before_units = arr.d.copy(), arr.units
+print("array", arr, arr.dtype, "->", new, "via", ROUTE)
+limit = {2: 2**11, 4: 2**24, 8: 2**53}.get(max(2, size))
+too_large = kind in "iu" and limit is not None and abs(x) > limit
+with warnings.catch_warnings(record=True) as caught:
+    warnings.simplefilter("always")
+    try:
+        if ROUTE == "convert_to_units":
+            arr.convert_to_units(new); res = arr
+        else:
+            res = arr.in_units(new)
+    except Exception as e:
+        print("raised", type(e).__name__, e)
+        print("after failure: values", arr.d, "units", arr.units)
+        if arr.units != before_units or not np.array_equal(arr.d.view(before_vals.dtype), before_vals):
+            print("VIOLATION reproduced: a failed conversion changed its input")
+            sys.exit(1)
+        sys.exit(0)
+warned = any(issubclass(w.category, RuntimeWarning) for w in caught)
+if too_large and not warned:
+    print("VIOLATION reproduced: integer", x, "exceeds the exact range of float%d (%d) and no RuntimeWarning was issued" % (8 * max(2, size), limit))
+    sys.exit(1)
+other = unyt.unyt_array(data.copy(), old)
+with warnings.catch_warnings():
+    warnings.simplefilter("ignore")
+    if ROUTE == "convert_to_units":
+        ref = other.in_units(new)
+    else:
+        other.convert_to_units(new); ref = other
+print(ROUTE, "gives", res, res.dtype, " the other route:", ref, ref.dtype)
+if res.dtype != ref.dtype or not np.allclose(res.d, ref.d, rtol=1e-6, equal_nan=True) or res.units != ref.units:
+    print("VIOLATION reproduced: in-place and copying routes differ")
+    sys.exit(1)
+if ROUTE == "in_units" and (arr.units != before_units or not np.array_equal(arr.d, before_vals) or np.shares_memory(res, arr)):
+    print("VIOLATION reproduced: the copying route changed or aliases its input")
+    sys.exit(1)
+want = (np.asarray(before_vals, dtype=float) - (old.base_offset / pv_old if pv_old else old.base_offset)) * old.base_value
+got = (np.asarray(res.d, dtype=float) - (new.base_offset / pv_new if pv_new else new.base_offset)) * new.base_value
+if kind != "c" and not np.allclose(got, want, rtol=1e-3, atol=1e-300):
+    print("VIOLATION reproduced: SI magnitude", got, "instead of", want)
+    sys.exit(1)
+sys.exit(0)
+''')
+
+
 class InUnits(_Route):
     name = "unyt.array.unyt_array.in_units"
+
+    def replay(self, model, label):
+        return route_replay(model, "in_units")
 
     def result(self, it, a):
         r = N.make_unyt_array(it, "converted", units=a.units)
@@ -129,6 +209,7 @@ class InUnits(_Route):
             ("result keeps the shape", z3.And(to_z3(N.arr_scalar(r)) == to_z3(old["scalar"]),
                                               to_z3(N.arr_size(r)) == to_z3(old["size"]))),
             ("result keeps the name", r.fields.get("name") is old["name"]),
+            large_integer_warning(it, old),
         ]
         return out + self.unchanged(a, old)
 
@@ -176,6 +257,7 @@ class ConvertToUnits(_Route):
             ("same memory buffer (in place)", b is old["buf"]),
             ("dtype as for the copying route", z3.And(to_z3(b.kind) == rk, to_z3(b.itemsize) == rn)),
             ("returns None", r is None),
+            large_integer_warning(it, old),
         ]
 
     def on_raise(self, it, a, old, exc):
@@ -188,32 +270,5 @@ class ConvertToUnits(_Route):
         return to_real(N.arr_buf(a.self).elem) == to_real(old["elem"])
 
     def replay(self, model, label):
-        from .replaylib import script
-        return script(model, r'''
-import numpy as np
-reg = UnitRegistry(add_default_symbols=False)
-old, pv_old = build_unit(reg, "xold", MODEL, "old")
-new, pv_new = build_unit(reg, "xnew", MODEL, "new")
-kind = MODEL.get("self.kind", "f"); size = int(MODEL.get("self.itemsize", 8))
-dt = np.dtype(kind + str(size)) if kind != "b" else np.dtype(bool)
-x = num(MODEL.get("self.elem", 1))
-data = np.array([x, x], dtype=dt) if kind != "c" else np.array([x, x], dtype=dt)
-arr = unyt.unyt_array(data.copy(), old)
-before_vals, before_units = arr.d.copy(), arr.units
-print("array", arr, arr.dtype, "->", new)
-try:
-    arr.convert_to_units(new)
-except Exception as e:
-    print("raised", type(e).__name__, e)
-    print("after failure: values", arr.d, "units", arr.units)
-    if arr.units != before_units or not np.array_equal(arr.d.view(before_vals.dtype), before_vals):
-        print("VIOLATION reproduced: a failed in-place conversion changed its target")
-        sys.exit(1)
-    sys.exit(0)
-ref = unyt.unyt_array(data.copy(), old).in_units(new)
-print("in place:", arr, arr.dtype, " copy:", ref, ref.dtype)
-if arr.dtype != ref.dtype or not np.allclose(arr.d, ref.d, rtol=1e-6) or arr.units != ref.units:
-    print("VIOLATION reproduced: in-place route differs from the copying route")
-    sys.exit(1)
-sys.exit(0)
-''')
+        return route_replay(model, "convert_to_units")
+
